@@ -917,6 +917,41 @@ func c14RandomHistory(r *RunCtx, p *PRNG, sc int) error {
 	h := int64(10 + p.Intn(500))
 	steps := 8 + p.Intn(10)
 	mode := p.Intn(3) // 0 attest, 1 report, 2 both
+	// directed (worlds with enough eligible providers): a prover asks for an attestation form, drops off the file while
+	// the form collects signatures, every named provider signs -- the quorum completes with nothing to refresh --, the
+	// prover joins again, and a provider whose signature is already on the form signs once more: a repeated signature,
+	// which must change nothing
+	if sc%3 == 0 && len(w.files) > 0 && len(w.files[0].Proofs) > 0 {
+		f := w.files[0]
+		pv := f.Proofs[0]
+		run := func(op c14Op) {
+			h++
+			op.Merkle, op.Owner, op.Start, op.Height = f.Merkle, f.Owner, f.Start, h
+			w.exec(tr, op, hist, true)
+			hist = append(hist, op)
+		}
+		run(c14Op{Kind: "reqA", Creator: pv})
+		var named []string
+		for _, fm := range w.observe().AForms {
+			if fm.Prover == pv && fm.Merkle == f.Merkle && fm.Owner == f.Owner && fm.Start == f.Start {
+				for _, en := range fm.Entries {
+					named = append(named, en.Provider)
+				}
+			}
+		}
+		if len(named) > 0 {
+			run(c14Op{Kind: "delproof", Prover: pv})
+			for _, nm := range named {
+				run(c14Op{Kind: "att", Creator: nm, Prover: pv})
+			}
+			run(c14Op{Kind: "setproof", Prover: pv, LP: h - 1})
+			run(c14Op{Kind: "att", Creator: named[0], Prover: pv})
+			if len(named) > 1 {
+				run(c14Op{Kind: "att", Creator: named[len(named)-1], Prover: pv})
+			}
+			r.Hist("directed", "quorum completed while the prover was off the file, then a repeated signature")
+		}
+	}
 	for i := 0; i < steps; i++ {
 		h += int64(p.Intn(3))
 		f := w.files[p.Intn(len(w.files))]
